@@ -64,7 +64,7 @@ def consumers(body, local, follow=True):
                     if dest["l"] == 0 and not dest["proj"]:
                         out.append({"kind": "return", "block": bi})
                     elif dest["proj"]:
-                        out.append({"kind": "store", "block": bi, "place": dest})
+                        out.append({"kind": "store", "block": bi, "stmt": si, "place": dest})
                     elif follow:
                         work.append(dest["l"])
                     continue
